@@ -251,8 +251,7 @@ func (r *Reader) initFields() error {
 			r.m[ent.Name] = ent
 		}
 		if ent.Type == "reg" && ent.ChunkSize > 0 && ent.ChunkSize < ent.Size {
-			r.chunks[ent.Name] = make([]*TOCEntry, 0, ent.Size/ent.ChunkSize+1)
-			r.chunks[ent.Name] = append(r.chunks[ent.Name], ent)
+			r.chunks[ent.Name] = []*TOCEntry{ent}
 		}
 		if ent.ChunkSize == 0 && ent.Size != 0 {
 			ent.ChunkSize = ent.Size
